@@ -375,4 +375,37 @@ theorem empty_name_flagged :
     validFieldName [] = false ∧ validFieldNameOld [] = true := by
   decide
 
+/-! ## HTTP trailers outside the gRPC protocol -/
+
+/-- Any HTTP trailer on a response that is not of the gRPC protocol (Connect, gRPC-Web, or
+anything else) is reported; none is reported for gRPC or without trailers. -/
+theorem http_trailers_outside_grpc (ct : String) (n : Nat) :
+    httpTrailersFeedback ct n = true ↔ (isGrpcContentType ct = false ∧ n > 0) := by
+  simp [httpTrailersFeedback]
+
+example : httpTrailersFeedback "application/grpc-web+proto" 1 = true ∧
+    httpTrailersFeedback "application/json" 2 = true ∧ httpTrailersFeedback "application/grpc+proto" 2 = false ∧
+    httpTrailersFeedback "application/grpc" 1 = false ∧ httpTrailersFeedback "application/connect+json" 0 = false := by
+  decide
+
+/-! ### non-vacuity of the hypotheses used above -/
+
+example : blockOK (bs "grpc-status: 0\r\nx-custom:\tv \r\n") = true ∧ blockOK [] = true ∧
+    blockOK (bs "grpc-status: 0\n") = false ∧ blockOK (bs "Grpc-Status: 0\r\n") = false := by decide
+
+example : mustFlag (bs "Grpc-Status 0\n\r\n x\r\n: v") =
+    [[.lfOnly, .noFinalCRLF], [.missingColon], [.blankLines, .extraBlankAtEnd],
+     [.obsFold, .invalidName, .missingColon]] := by decide
+
+example :
+    let h : Hdrs := [(kStatus, [bs "13"]), (kMessage, [bs "a%20b"]), (kDetails, [bs "QQ"])]
+    let dec : Bytes → DetailsDec := fun _ => .decoded false (some (13, bs "a b", true))
+    statusOK dec h = true ∧ checkGRPCStatus dec h = [] := by decide
+
+example :
+    let h : Hdrs := [(kStatus, [bs "+5", bs "x"]), (kMessage, [bs "50%"]), (kDetails, [bs "!"])]
+    mustFlagStatus (fun _ => .invalid) h =
+      [[.multiStatus], [.msg .hexExpected, .msg .unescaped, .msg .incomplete], [.detailsBadBase64]] ∧
+    checkGRPCStatus (fun _ => .invalid) h = [.multiStatus, .msg .incomplete, .detailsBadBase64] := by decide
+
 end ConfModel.Props.C13
